@@ -654,8 +654,12 @@ def tier_opts(tier):
 
 ASSUMPTIONS = [
     "the model of a virtual or partitioned array is, by the property's own statement, the materialised concatenated "
-    "array: an eager twin built from separate buffers receives every operation too; results are compared through "
-    "the independent walker after forcing (a lazy array may defer an error to the moment it is read)",
+    "array: aws_materialise rebuilds the identical tree with every VirtualArray replaced by the truth of its "
+    "SimGenerator or by the slice that its SliceGenerator defers (SliceGenerator::generate is mirrored), and every "
+    "operation is applied to both; results are compared through the independent walker after forcing (a lazy array "
+    "may defer an error to the moment it is read). An eager twin from separate buffers checks the initial read",
+    "no verdict for an operation whose result on the materialised array is an error, a scalar or an invalid layout; "
+    "results whose dump exceeds 400 kB end the run as a discard",
     "ArrayCache and ArrayGenerator are the simulator's own subclasses (SimCache, SimGenerator): every get/set/"
     "generate answer is scripted by the run (hit, evicted-just-now, lost set, broken cache; ok, throw, short, wrong "
     "form); cache keys are explicit and unique; a virtual node is never placed directly under a string list "
@@ -673,9 +677,10 @@ COMPONENTS = {"real": ["src/libawkward/array/VirtualArray.cpp", "virtual/ArrayGe
               "absent": ["pybind11 layer (PyArrayCache, PyArrayGenerator)", "Python layer (ak.virtual, ak.partitioned, partition.py)"]}
 RULE = ("one run = a valid truth layout + either (a) the same layout with 1-3 nodes wrapped in VirtualArray over a "
         "scripted cache (none/keep/evict-always/evict-randomly/lossy/broken) and scripted generators, or (b) a splitting "
-        "into 1-5 partitions (empty ones included, some virtual) - then a seeded history of operations applied to the "
-        "lazy structure and to the eager twin, with evictions between operations and generator faults placed inside "
-        "operations, each followed by a recovery attempt. distinct = hash of (topology classes, cache policy, declared "
+        "into 1-5 partitions (empty ones included, some virtual) - then a seeded history of operations, each applied to the "
+        "lazy operand and to its materialisation (the same tree with every VirtualArray replaced by what it stands for, "
+        "built by the simulator without touching a seam), with evictions between operations and generator faults or an "
+        "allocation failure placed inside operations, each followed by a recovery attempt. distinct = hash of (topology classes, cache policy, declared "
         "form/length, op-class and fault sequence); non-trivial = at least 3 events")
 REQUIRED_PROBES = {"quick": ["recovered_after_allocation_failure", "operations_compared", "metadata_compared", "final_reads_compared", "partition_at_compared",
                              "partition_range_compared", "repartitions_compared", "recovery_attempts"],
